@@ -95,9 +95,10 @@ func parseLockClauses(pc *PkgContracts, clauses []rawClause) error {
 }
 
 type heldLock struct {
-	path string // printed expression of the lock, e.g. "idx.mu" or "r"
-	key  string // type-level identity "index.mu" for ordering
-	mode string // "R" or "W"
+	path  string // printed expression of the lock, e.g. "idx.mu" or "r"
+	key   string // type-level identity "index.mu" for ordering
+	mode  string // "R" or "W"
+	entry bool   // held on entry by contract (requires_held): not this function's to release
 }
 
 type lockState struct {
@@ -142,20 +143,22 @@ func joinLock(a, b lockState) lockState {
 			if o.mode == "R" {
 				m = "R"
 			}
-			out = append(out, heldLock{h.path, h.key, m})
+			out = append(out, heldLock{h.path, h.key, m, h.entry && o.entry})
 		}
 	}
 	return lockState{held: out}
 }
 
 type lockChecker struct {
-	prog     *Prog
-	pkg      *packages.Package
-	spec     *LockSpec
-	obls     []*Obligation
-	fname    string
-	ord      map[string]int
-	deferred []func(st *lockState)
+	acquired        bool
+	deferredUnlocks map[string]bool
+	prog            *Prog
+	pkg             *packages.Package
+	spec            *LockSpec
+	obls            []*Obligation
+	fname           string
+	ord             map[string]int
+	deferred        []func(st *lockState)
 }
 
 // localAliases: expression path -> local variable that holds the same pointer
@@ -318,7 +321,8 @@ func (lc *lockChecker) acquire(st *lockState, path string, e ast.Expr, mode stri
 			break
 		}
 	}
-	st.held = append(st.held, heldLock{normLockPath(path), key, mode})
+	st.held = append(st.held, heldLock{normLockPath(path), key, mode, false})
+	lc.acquired = true
 }
 
 func (lc *lockChecker) release(st *lockState, path string) {
@@ -341,6 +345,9 @@ func (lc *lockChecker) scanExpr(e ast.Expr, st *lockState, write bool) {
 		case *ast.FuncLit:
 			// analysed where it is invoked / with the state at definition
 			body := st.clone()
+			for i := range body.held {
+				body.held[i].entry = true // the enclosing function's locks are not the closure's to release
+			}
 			lc.block(x.Body.List, &body)
 			return false
 		case *ast.CallExpr:
@@ -411,7 +418,7 @@ func (lc *lockChecker) call(call *ast.CallExpr, st *lockState) {
 							// the function-typed arguments run with the lock held
 							lc.scanExpr(se.X, st, false)
 							inner := st.clone()
-							inner.held = append(inner.held, heldLock{lockPath, n.Obj().Name() + "." + h.lock, h.mode})
+							inner.held = append(inner.held, heldLock{lockPath, n.Obj().Name() + "." + h.lock, h.mode, true})
 							for _, a := range call.Args {
 								if lit, ok := ast.Unparen(a).(*ast.FuncLit); ok {
 									lc.block(lit.Body.List, &inner)
@@ -516,6 +523,7 @@ func (lc *lockChecker) stmt(s ast.Stmt, st *lockState) {
 		for _, r := range s.Results {
 			lc.scanExpr(r, st, false)
 		}
+		lc.checkLeaks(st, s.Pos())
 		st.dead = true
 	case *ast.BlockStmt:
 		lc.block(s.List, st)
@@ -601,11 +609,23 @@ func (lc *lockChecker) stmt(s ast.Stmt, st *lockState) {
 	case *ast.DeferStmt:
 		// deferred unlocks keep the lock held until the function returns; other deferred
 		// work is analysed with the locks held at the defer statement
-		if _, _, m, ok := lc.isMutexCall(s.Call); ok && (m == "Unlock" || m == "RUnlock") {
+		if path, _, m, ok := lc.isMutexCall(s.Call); ok && (m == "Unlock" || m == "RUnlock") {
+			lc.deferUnlock(path)
 			return
 		}
 		if lit, ok := ast.Unparen(s.Call.Fun).(*ast.FuncLit); ok {
+			ast.Inspect(lit.Body, func(n ast.Node) bool {
+				if c, ok := n.(*ast.CallExpr); ok {
+					if path, _, m, ok := lc.isMutexCall(c); ok && (m == "Unlock" || m == "RUnlock") {
+						lc.deferUnlock(path)
+					}
+				}
+				return true
+			})
 			b := st.clone()
+			for i := range b.held {
+				b.held[i].entry = true
+			}
 			// unlocks inside a deferred closure run at exit: analyse its other statements with the lock held
 			lc.block(lit.Body.List, &b)
 			return
@@ -708,7 +728,7 @@ func runLockset(prog *Prog, pf *PropFile) []*Obligation {
 								if h.lock != "" {
 									lp = base + "." + h.lock
 								}
-								st.held = append(st.held, heldLock{normLockPath(lp), n.Obj().Name() + "." + h.lock, h.mode})
+								st.held = append(st.held, heldLock{normLockPath(lp), n.Obj().Name() + "." + h.lock, h.mode, true})
 							}
 						}
 					}
@@ -716,14 +736,44 @@ func runLockset(prog *Prog, pf *PropFile) []*Obligation {
 				if fd.Recv == nil {
 					for _, h := range pc.Locks.held {
 						if h.typ == "" && h.method == fd.Name.Name && !h.during {
-							st.held = append(st.held, heldLock{h.lock, h.lock, h.mode})
+							st.held = append(st.held, heldLock{h.lock, h.lock, h.mode, true})
 						}
 					}
 				}
 				lc.block(fd.Body.List, &st)
+				lc.checkLeaks(&st, fd.Body.Rbrace)
 				out = append(out, lc.obls...)
 			}
 		}
 	}
 	return out
+}
+
+// ---------------------------------------------------------------- lock leaks
+
+func (lc *lockChecker) deferUnlock(path string) {
+	if lc.deferredUnlocks == nil {
+		lc.deferredUnlocks = map[string]bool{}
+	}
+	lc.deferredUnlocks[normLockPath(path)] = true
+}
+
+// checkLeaks: at a return (or the end of the body) every lock this function acquired has been
+// released or has a deferred unlock. A lock that stays held blocks every later writer forever.
+func (lc *lockChecker) checkLeaks(st *lockState, pos token.Pos) {
+	if !lc.acquired || st.dead {
+		return
+	}
+	leaked := ""
+	for _, h := range st.held {
+		if h.entry || lc.deferredUnlocks[h.path] {
+			continue
+		}
+		leaked = h.path
+	}
+	if leaked != "" {
+		lc.report("leak", leaked, false, pos, "lock "+leaked+" is still held at this return (no unlock on this path, no deferred unlock)")
+	} else {
+		lc.report("leak", "return", true, pos, "every lock acquired in this function is released or has a deferred unlock at this return")
+	}
 }
